@@ -27,7 +27,7 @@ BOUNDS = {
     "c18_dag_replay": "comp/pair DAGs of depth <= 3 over unit with every reuse/copy choice among the first 6 sub-DAGs per level, as commitment-time programs",
     "c11_value_order_replay": "about 2000 values of widths <= 24 bits built by constructors, by decoding padded / compact bits and by sub-value extraction (depth <= 3): all pairs for eq/cmp/hash; encode/decode, accessor/constructor inverses, products of extracted parts, pruning to unit-left and to the own type",
     "c19_budget_replay": "stacks of {0,1,2,5,251..254,300,65535,65536} items of {0,1,2,252,253,254} bytes; weights at budget-2 .. budget+65537",
-    "c09_cmr_replay": "all combinator trees of depth <= 2 over iden/unit/witness/fail leaves, as nodes / bare roots / hiding wrappers, and converted to commitment- and redemption-time nodes",
+    "c09_cmr_replay": "all combinator trees of depth <= 2 over iden/unit/witness/fail leaves, as nodes / bare roots / hiding wrappers, and converted to commitment- and redemption-time nodes; assertl / assertr over a hidden and over a visible executed child",
 }
 
 
